@@ -66,10 +66,13 @@ impl<'a> Ctx<'a> {
   pub fn cty_names(&self) -> Vec<String> {
     self.generics.iter().filter(|g| g.is_cty).map(|g| g.name.clone()).collect()
   }
+  pub fn fresh_pub(&mut self, base: &str) -> String { self.fresh(base) }
+  pub fn seq_pub(&mut self, ops: Vec<Tr>, k: impl FnOnce(&[String]) -> (String, bool)) -> (String, bool) { self.seq(ops, k) }
   fn fresh(&mut self, base: &str) -> String {
     self.fresh += 1;
     format!("t_{}{}", base, self.fresh)
   }
+  pub fn lookup_pub(&self, n: &str) -> Option<Ty> { self.lookup(n) }
   fn lookup(&self, n: &str) -> Option<Ty> {
     self.vars.iter().rev().find(|(k, _)| k == n).map(|(_, t)| t.clone())
   }
@@ -316,9 +319,12 @@ impl<'a> Ctx<'a> {
       return Ok(Tr::eff(code, r.ty));
     }
     let e = self.expr(&init.expr, ann.as_ref())?;
-    let ty = match ann {
-      Some(a) => a,
-      None => e.ty.clone(),
+    let ty = match (ann, &e.ty) {
+      // `let p: *mut B = <raw pointer out of a container>`: still that container
+      (Some(Ty::Ref(t)), Ty::RawCont(_)) => Ty::RawCont(t),
+      (Some(Ty::Ref(t)), Ty::Addr(_)) => Ty::Addr(t),
+      (Some(a), _) => a,
+      (None, _) => e.ty.clone(),
     };
     let binder = self.bind_pat(pat, &ty)?;
     let r = self.block(rest, expected)?;
@@ -576,6 +582,9 @@ impl<'a> Ctx<'a> {
     let x = self.expr(&c.expr, None)?;
     let target = self.syn_ty(&c.ty)?;
     match (&x.ty, &target) {
+      // a raw pointer taken out of an owning container, re-typed: the same container
+      (Ty::RawCont(_), Ty::Ref(to)) => Ok(Tr { code: x.code, ty: Ty::RawCont(to.clone()), pure: x.pure }),
+      (Ty::Addr(_), Ty::Ref(to)) => Ok(Tr { code: x.code, ty: Ty::Addr(to.clone()), pure: x.pure }),
       // pointer-to-pointer casts (thin<->thin, slice<->slice keep the length, slice->thin keeps
       // the data pointer)
       (Ty::Ref(from), Ty::Ref(to)) => {
@@ -737,6 +746,18 @@ impl<'a> Ctx<'a> {
       {
         let p = self.expr(args[0], None)?;
         let n = self.expr(args[1], Some(&Ty::Usize))?;
+        if let Ty::Addr(e) = &p.ty {
+          // a slice container made of a bare address and a length
+          let elem = (**e).clone();
+          let (code, pure) = self.seq(vec![p, n], |v| (format!("(mkCont {} {} {})", v[0], v[1], v[1]), true));
+          return Ok(Tr { code, ty: Ty::RawCont(Box::new(Ty::SliceOf(Box::new(elem)))), pure });
+        }
+        if let Ty::RawCont(e) = &p.ty {
+          // the container's own buffer viewed as a slice of `n` elements of the pointer's type
+          let elem = (**e).clone();
+          let (code, pure) = self.seq(vec![p, n], |v| (format!("(cont_resize {} {})", v[0], v[1]), true));
+          return Ok(Tr { code, ty: Ty::RawCont(Box::new(Ty::SliceOf(Box::new(elem)))), pure });
+        }
         let mut elem = p.ty.pointee().ok_or("from_raw_parts of a non-pointer")?.clone();
         if elem == Ty::Unknown {
           // NonNull::dangling().as_ptr(): the element type comes from the expected slice type
@@ -951,6 +972,11 @@ pub fn translate_fn_with(ms: &ModuleSpec, sig: &FnSig, body: &syn::Block,
   let mut binders = String::from("(ENV : env)");
   for g in &sig.generics {
     binders.push_str(&format!(" ({} : {})", g.name, if g.is_cty { "cty" } else { "ty" }));
+  }
+  for g in &sig.generics {
+    if g.maybe_unsized {
+      binders.push_str(&format!(" (unsized_{} : bool)", g.name));
+    }
   }
   for (n, t) in &sig.params {
     binders.push_str(&format!(" ({} : {})", vname(n), coq_type(t)?));
